@@ -577,7 +577,7 @@ class SymDict:
         self.present = {}                # key -> True/False decided on this path
 
     def __repr__(self):
-        return "SymDict(%s)" % self.name
+        return "SymDict(%s)" % (self.name,)
 
 
 class SymStr:
@@ -586,7 +586,7 @@ class SymStr:
         self.length = length
 
     def __repr__(self):
-        return "SymStr(%s)" % self.name
+        return "SymStr(%s)" % (self.name,)
 
 
 class SymBytes:
@@ -597,4 +597,4 @@ class SymBytes:
         self.length = length if length is not None else Sym.opaque(("len", name))
 
     def __repr__(self):
-        return "SymBytes(%s)" % self.name
+        return "SymBytes(%s)" % (self.name,)
